@@ -15,6 +15,9 @@ type WorkloadAgent struct {
 	// Policy: "ready" (default), "never", "stale" (ready but observedGeneration lags)
 	Policy map[store.Key]string
 	Budget int // remaining perturbations
+	// Convergent restricts perturbations to ones the agent itself reverts and
+	// that cannot latch anything (never makes a not-ready workload look ready).
+	Convergent bool
 }
 
 func (a *WorkloadAgent) Name() string { return "workload" }
@@ -41,7 +44,7 @@ func workloadStatus(kind string, gen int64, mode string) store.Obj {
 		}
 	}
 	return store.Obj{
-		"phase": phase,
+		"phase":      phase,
 		"conditions": []any{map[string]any{"type": "Ready", "status": ready, "observedGeneration": og, "reason": "Sim", "message": "sim"}},
 	}
 }
@@ -80,6 +83,9 @@ func (a *WorkloadAgent) Ops(w *World, calm bool) []AgentOp {
 			ops = append(ops, AgentOp{Label: "perturb " + key.String(), Weight: 1, Do: func(w *World) {
 				a.Budget--
 				mode := []string{"unready", "stale", "ready"}[w.Sch.Intn(3, "workload-mode")]
+				if a.Convergent && a.target(key) != "ready" {
+					mode = "unready" // never let a not-ready workload look (partly) ready
+				}
 				st := store.Normalize(workloadStatus(key.Kind, gen, mode))
 				w.Stats.Probe("workload-" + mode)
 				_, _ = w.TP("workload", cl).Mutate(key, func(o store.Obj) { o["status"] = st })
